@@ -102,6 +102,10 @@ func runC07(rc *RunCtx) {
 		rc.Probe("ctor_refused")
 		return
 	}
+	if sc.Kind != KSerial && !rc.Scen.Has("cutmode") {
+		// the application hands the protocol constructor a config that names one of the protocol's own functions explicitly
+		sc.ConfOneFunc = []int{0, 0, 0, 1, 2}[rc.Scen.Choose(5)]
+	}
 	// sometimes a second call follows on the same client; the first response is held across it
 	var sc2 *C1
 	if !rc.Scen.Has("cutmode") && !sc.LongSilence && rc.Scen.Chance(1, 5) {
@@ -114,6 +118,9 @@ func runC07(rc *RunCtx) {
 			if rc.Scen.Chance(1, 2) {
 				// the client sits idle for longer than its read timeout between the two calls
 				n.IdleBefore = sc.ReadTimeout + time.Duration(1+rc.Scen.Choose(50))*time.Millisecond
+			}
+			if sc.Kind != KSerial {
+				n.Reconnect = []int{0, 0, 1, 2}[rc.Scen.Choose(4)] // connected again (after Close or without it) before the second call
 			}
 			sc.Then, sc2 = n, n
 		}
